@@ -321,3 +321,127 @@ Theorem optimize_accepts_same_from_source :
 Proof. exact OptimSame.optimize_accepts_same_from_source. Qed.
 Print Assumptions optimize_accepts_same_from_source.
 
+
+(* ---- (c2) for BOTH settings, and the program-level form of 'no unreferenced sub-label' (NoGotoNext.v).
+   forward_tail_crosses_a_solid_chunk: a worklist invariant - between a chunk and a later tail target lies a chunk that
+   emits something. no_goto_to_next_label(_unoptimized, _from_source): for every body of every accepted program and both
+   settings, no generated `goto l` is followed - blank lines and markers aside - by the label l. (Needs that the body is well
+   scoped, which every accepted body is; OptimSame.EXAMPLES.ascending_order_needs_scoping shows the need.)
+   script_label_lines(_from_source), program_label_lines: every label line of a script's code is the script's label, a label
+   the author wrote, or a sub-label that some jump of that code refers to - for the final code of every accepted program.
+   program_segments_ok, program_no_goto_to_next_label: the whole program's list (the flat form needs the labels of the program
+   pairwise distinct: flat_statement_needs_distinct_labels, boundary B2). ---- *)
+From Pory Require Import NoGotoNext. Open Scope list_scope.
+Theorem forward_tail_crosses_a_solid_chunk :
+  forall (body : list stmt) (w : wst),
+  emit_graph body = Emitter.Ok w ->
+  src_ok body ->
+  scoped None None body ->
+  forall c : chunk,
+  In c (finals w) -> (tail_of c <= cid c + 1)%Z \/ (exists W : chunk, In W (finals w) /\ solidF W /\ (cid c < cid W < tail_of c)%Z).
+Proof. exact NoGotoNext.forward_tail_crosses_a_solid_chunk. Qed.
+Print Assumptions forward_tail_crosses_a_solid_chunk.
+
+Theorem no_goto_to_next_label_unoptimized :
+  forall (mp : option text) (tl : list text) (name : text) (glob : bool) (body : list stmt) (w : wst) (code : list instr),
+  emit_graph body = Emitter.Ok w ->
+  src_ok body ->
+  scoped None None body ->
+  (Z.of_nat (Datatypes.length (finals w)) <= 10 ^ 40)%Z ->
+  emit_script mp tl name glob false body = Emitter.Ok code ->
+  forall (pre : list instr) (l : text) (mid : list instr) (g : bool) (post : list instr),
+  code = pre ++ IGoto l :: mid ++ ILabel l g :: post -> Forall skip mid -> False.
+Proof. exact NoGotoNext.no_goto_to_next_label_unoptimized. Qed.
+Print Assumptions no_goto_to_next_label_unoptimized.
+
+Theorem no_goto_to_next_label :
+  forall (mp : option text) (tl : list text) (name : text) (glob : bool) (body : list stmt) (w : wst) (opt : bool) (code : list instr),
+  emit_graph body = Emitter.Ok w ->
+  src_ok body ->
+  scoped None None body ->
+  (Z.of_nat (Datatypes.length (finals w)) <= 10 ^ 40)%Z ->
+  emit_script mp tl name glob opt body = Emitter.Ok code ->
+  forall (pre : list instr) (l : text) (mid : list instr) (g : bool) (post : list instr),
+  code = pre ++ IGoto l :: mid ++ ILabel l g :: post -> Forall skip mid -> False.
+Proof. exact NoGotoNext.no_goto_to_next_label. Qed.
+Print Assumptions no_goto_to_next_label.
+
+Theorem no_goto_to_next_label_from_source :
+  forall (hl hd hs : N -> bool) (autovars : list (text * autovar)) (switches : list (text * text)) (ee : bool) (fc : fontcfg) 
+    (cli_font : text) (cli_maxlen : Z) (src : text) (p : program),
+  parse_program autovars switches ee (parse_format fc cli_font cli_maxlen ee) (lex hl hd hs src) = Ok p ->
+  forall (body : list stmt) (mp : option text) (tl : list text) (name : text) (glob : bool) (w : wst) (opt : bool) (code : list instr),
+  In body (bodies_of (tops p)) ->
+  emit_graph body = Emitter.Ok w ->
+  (Z.of_nat (Datatypes.length (finals w)) <= 10 ^ 40)%Z ->
+  emit_script mp tl name glob opt body = Emitter.Ok code ->
+  forall (pre : list instr) (l : text) (mid : list instr) (g : bool) (post : list instr),
+  code = pre ++ IGoto l :: mid ++ ILabel l g :: post -> Forall skip mid -> False.
+Proof. exact NoGotoNext.no_goto_to_next_label_from_source. Qed.
+Print Assumptions no_goto_to_next_label_from_source.
+
+Theorem script_label_lines :
+  forall (mp : option text) (tl : list text) (name : text) (glob : bool) (body : list stmt) (w : wst) (opt : bool) (code : list instr),
+  emit_graph body = Emitter.Ok w ->
+  src_ok body -> emit_script mp tl name glob opt body = Emitter.Ok code -> label_lines_accounted name glob body code.
+Proof. exact NoGotoNext.script_label_lines. Qed.
+Print Assumptions script_label_lines.
+
+Theorem script_label_lines_from_source :
+  forall (hl hd hs : N -> bool) (autovars : list (text * autovar)) (switches : list (text * text)) (ee : bool) (fc : fontcfg) 
+    (cli_font : text) (cli_maxlen : Z) (src : text) (p : program),
+  parse_program autovars switches ee (parse_format fc cli_font cli_maxlen ee) (lex hl hd hs src) = Ok p ->
+  forall (body : list stmt) (mp : option text) (tl : list text) (name : text) (glob opt : bool) (code : list instr),
+  In body (bodies_of (tops p)) -> emit_script mp tl name glob opt body = Emitter.Ok code -> label_lines_accounted name glob body code.
+Proof. exact NoGotoNext.script_label_lines_from_source. Qed.
+Print Assumptions script_label_lines_from_source.
+
+Theorem program_segments_ok :
+  forall (hl hd hs : N -> bool) (autovars : list (text * autovar)) (switches : list (text * text)) (ee : bool) (fc : fontcfg) 
+    (cli_font : text) (cli_maxlen : Z) (src : text) (p : program),
+  parse_program autovars switches ee (parse_format fc cli_font cli_maxlen ee) (lex hl hd hs src) = Ok p ->
+  forall (opt : bool) (mp : option text) (code : list instr),
+  (forall (body : list stmt) (w : wst),
+   In body (bodies_of (tops p)) -> emit_graph body = Emitter.Ok w -> (Z.of_nat (Datatypes.length (finals w)) <= 10 ^ 40)%Z) ->
+  emit_program_instrs opt mp p = Emitter.Ok code ->
+  exists segs : list (list instr), Forall2 (segment_ok mp (map xname (texts p)) opt) (program_pieces mp p) segs /\ code = List.concat segs.
+Proof. exact NoGotoNext.program_segments_ok. Qed.
+Print Assumptions program_segments_ok.
+
+Theorem data_pieces_have_no_goto :
+  forall (mp : option text) (p : program) (is : list instr), In (PData is) (program_pieces mp p) -> forall l : text, ~ In (IGoto l) is.
+Proof. exact NoGotoNext.data_pieces_have_no_goto. Qed.
+Print Assumptions data_pieces_have_no_goto.
+
+Theorem program_label_lines :
+  forall (hl hd hs : N -> bool) (autovars : list (text * autovar)) (switches : list (text * text)) (ee : bool) (fc : fontcfg) 
+    (cli_font : text) (cli_maxlen : Z) (src : text) (p : program),
+  parse_program autovars switches ee (parse_format fc cli_font cli_maxlen ee) (lex hl hd hs src) = Ok p ->
+  forall (opt : bool) (mp : option text) (code : list instr),
+  emit_program_instrs opt mp p = Emitter.Ok code ->
+  exists segs : list (list instr),
+    Forall2 (realizes mp (map xname (texts p)) opt) (program_pieces mp p) segs /\
+    code = List.concat segs /\
+    (forall (n : text) (g : bool) (b : list stmt) (seg : list instr),
+     In (PScript n g b, seg) (combine (program_pieces mp p) segs) ->
+     forall (n' : text) (g' : bool),
+     In (ILabel n' g') seg ->
+     (n', g') = (n, g) \/
+     In (n', g') (slabs b) \/ (exists i : Z, (0 < i)%Z /\ n' = lbl n i /\ g' = false /\ In n' (targets_of seg) /\ In n' (targets_of code))).
+Proof. exact NoGotoNext.program_label_lines. Qed.
+Print Assumptions program_label_lines.
+
+Theorem program_no_goto_to_next_label :
+  forall (hl hd hs : N -> bool) (autovars : list (text * autovar)) (switches : list (text * text)) (ee : bool) (fc : fontcfg) 
+    (cli_font : text) (cli_maxlen : Z) (src : text) (p : program),
+  parse_program autovars switches ee (parse_format fc cli_font cli_maxlen ee) (lex hl hd hs src) = Ok p ->
+  forall (opt : bool) (mp : option text) (code : list instr),
+  (forall (body : list stmt) (w : wst),
+   In body (bodies_of (tops p)) -> emit_graph body = Emitter.Ok w -> (Z.of_nat (Datatypes.length (finals w)) <= 10 ^ 40)%Z) ->
+  emit_program_instrs opt mp p = Emitter.Ok code ->
+  NoDup (lnames code) ->
+  forall (pre : list instr) (l : text) (mid : list instr) (g : bool) (post : list instr),
+  code = pre ++ IGoto l :: mid ++ ILabel l g :: post -> Forall skip mid -> False.
+Proof. exact NoGotoNext.program_no_goto_to_next_label. Qed.
+Print Assumptions program_no_goto_to_next_label.
+
